@@ -184,7 +184,26 @@ def ceval(n, env, prog=None, depth=0):
 
 
 def run_function(f, args, prog=None, depth=0, cur_char=None):
-    """interpret a loop-free, store-free function (the predicates) on concrete arguments"""
+    """interpret a small pure function (the predicates) on concrete arguments; predicates with loops, locals or const
+    tables go to the general interpreter (sa/interp.py)"""
+    try:
+        return _run_simple(f, args, prog, depth, cur_char)
+    except CannotEvaluate as e:
+        if prog is None or any(a is None for a in args):
+            raise
+        from . import interp as I
+        try:
+            v = I.Machine(prog).run(f, list(args))
+        except I.Stuck as e2:
+            raise CannotEvaluate("%s; %s" % (e, e2))
+        if isinstance(v, I.Ptr):
+            return 1
+        if not isinstance(v, int):
+            raise CannotEvaluate("non-integer result of %s" % f.name)
+        return v
+
+
+def _run_simple(f, args, prog=None, depth=0, cur_char=None):
     env = {p["name"]: a for p, a in zip(f.params, args) if a is not None}
     if cur_char is not None:
         env["$c"] = cur_char
